@@ -4,9 +4,11 @@
 package main
 
 import (
+	"bytes"
 	"crypto/sha256"
 	"fmt"
 	"os"
+	"time"
 
 	"github.com/brocaar/lorawan"
 	mc "github.com/brocaar/lorawan/applayer/multicastsetup"
@@ -21,8 +23,10 @@ func dirName(up bool) string {
 	return "down"
 }
 
-// call runs f and reports (result-ok, panicked, panic text)
-func call(f func() error) (err error, panicked bool, msg string) {
+// call runs f under recover() and under the watchdog; reports (error, panicked, panic text)
+func call(what string, f func() error) (err error, panicked bool, msg string) {
+	cases.Begin(what, map[string]interface{}{"call": what})
+	defer cases.End()
 	defer func() {
 		if r := recover(); r != nil {
 			panicked = true
@@ -31,6 +35,42 @@ func call(f func() error) (err error, panicked bool, msg string) {
 	}()
 	err = f()
 	return
+}
+
+func inverted(b []byte) []byte {
+	out := make([]byte, len(b))
+	for i, x := range b {
+		out[i] = ^x
+	}
+	return out
+}
+
+// aliasCheck: `back` was decoded from `buf`, a private copy of `orig`. The call must not
+// have written to its input, and the decoded commands must not share memory with it
+// (encoding.BinaryUnmarshaler: "UnmarshalBinary must copy the data if it wishes to retain
+// the data after returning"): after every byte of the buffer is inverted the decoded
+// commands must print as before.
+func aliasCheck(s *cases.Set, pk *pkg, api string, up bool, orig, buf []byte, back []cmd) {
+	if !bytes.Equal(orig, buf) {
+		s.Fail(cases.GoFail{Key: short(fmt.Sprintf("decoder-modifies-input:%s:%x", pk.name, orig)),
+			What:   pk.name + api + " wrote to the byte slice it was given",
+			Replay: map[string]interface{}{"api": pk.name + api, "uplink": up, "data": fmt.Sprintf("%x", orig), "data_after_call": fmt.Sprintf("%x", buf)}})
+		return
+	}
+	var before, after string
+	_, pan, _ := call("print decoded", func() error { before = cmdsTerm(pk, back); return nil })
+	if pan {
+		return
+	}
+	for i := range buf {
+		buf[i] = ^buf[i]
+	}
+	call("print decoded", func() error { after = cmdsTerm(pk, back); return nil })
+	if before != after {
+		s.Fail(cases.GoFail{Key: short(fmt.Sprintf("decoded-command-aliases-input:%s:%x", pk.name, orig)),
+			What:   "the command(s) decoded by " + pk.name + api + " share memory with the input buffer: they change when the caller reuses the buffer",
+			Replay: map[string]interface{}{"api": pk.name + api, "uplink": up, "data": fmt.Sprintf("%x", orig), "decoded": before, "decoded_after_buffer_was_overwritten": after}})
+	}
 }
 
 func short(k string) string {
@@ -52,7 +92,25 @@ func natList(xs []int) string {
 // streamCase: encode the commands, record sizes, decode what was encoded.
 func streamCase(s *cases.Set, pk *pkg, up bool, cs []cmd, kind string) {
 	var enc []byte
-	err, pan, msg := call(func() error { var e error; enc, e = pk.marshal(cs); return e })
+	key := short("stream:" + pk.name + ":" + dirName(up) + ":" + cmdsKey(pk, cs))
+	var csBefore string
+	call("print", func() error { csBefore = cmdsTerm(pk, cs); return nil })
+	err, pan, msg := call("Commands.MarshalBinary:"+key, func() error { var e error; enc, e = pk.marshal(cs); return e })
+	if !pan && err == nil {
+		// the returned bytes belong to the caller: overwriting them must not change the commands
+		keep := append([]byte{}, enc...)
+		for i := range enc {
+			enc[i] = ^enc[i]
+		}
+		var csAfter string
+		call("print", func() error { csAfter = cmdsTerm(pk, cs); return nil })
+		if csBefore != csAfter {
+			s.Fail(cases.GoFail{Key: short("encoded-bytes-alias-command:" + pk.name + ":" + cmdsKey(pk, cs)),
+				What:   pk.name + ".Commands.MarshalBinary returned bytes that share memory with the command's payload",
+				Replay: map[string]interface{}{"commands": csBefore, "commands_after_output_was_overwritten": csAfter}})
+		}
+		enc = keep
+	}
 	oenc := cq.Err
 	if pan {
 		oenc = cq.Panic
@@ -60,7 +118,7 @@ func streamCase(s *cases.Set, pk *pkg, up bool, cs []cmd, kind string) {
 		oenc = cq.Ok(cq.Bytes(enc))
 	}
 	var sizes []int
-	_, span, _ := call(func() error { sizes = pk.sizes(cs); return nil })
+	_, span, _ := call("Command.Size:"+key, func() error { sizes = pk.sizes(cs); return nil })
 	if span {
 		sizes = nil
 	}
@@ -68,7 +126,20 @@ func streamCase(s *cases.Set, pk *pkg, up bool, cs []cmd, kind string) {
 	decNote := ""
 	if !pan && err == nil {
 		var back []cmd
-		derr, dpan, dmsg := call(func() error { var e error; back, e = pk.unmarshal(up, enc); return e })
+		buf := append([]byte{}, enc...)
+		derr, dpan, dmsg := call("Commands.UnmarshalBinary:"+key, func() error { var e error; back, e = pk.unmarshal(up, buf); return e })
+		if !dpan {
+			aliasCheck(s, pk, ".Commands.UnmarshalBinary", up, enc, buf, back)
+		}
+		// one command at a time as well
+		if !dpan && derr == nil && len(cs) == 1 {
+			buf1 := append([]byte{}, enc...)
+			var c1 cmd
+			_, p1, _ := call("Command.UnmarshalBinary:"+key, func() error { var e error; c1, e = pk.unmarshal1(up, buf1); return e })
+			if !p1 {
+				aliasCheck(s, pk, ".Command.UnmarshalBinary", up, enc, buf1, []cmd{c1})
+			}
+		}
 		switch {
 		case dpan:
 			odec = cq.Panic
@@ -88,22 +159,30 @@ func streamCase(s *cases.Set, pk *pkg, up bool, cs []cmd, kind string) {
 	if decNote != "" {
 		rp["decode_note"] = decNote
 	}
-	s.Add(cases.Case{Term: term, Key: short("stream:" + pk.name + ":" + dirName(up) + ":" + cmdsKey(pk, cs)), Kind: kind, Nontrivial: true, Replay: rp})
+	s.Add(cases.Case{Term: term, Key: key, Kind: kind, Nontrivial: true, Replay: rp})
 }
 
 // decodeCase: arbitrary bytes into the stream decoder or the single-command decoder.
 func decodeCase(s *cases.Set, pk *pkg, up, single bool, data []byte, kind string) {
 	var back []cmd
-	err, pan, msg := call(func() error {
+	buf := append([]byte{}, data...)
+	err, pan, msg := call(fmt.Sprintf("%s.UnmarshalBinary(up=%v,single=%v):%x", pk.name, up, single, data), func() error {
 		if single {
-			c, e := pk.unmarshal1(up, data)
+			c, e := pk.unmarshal1(up, buf)
 			back = []cmd{c}
 			return e
 		}
 		var e error
-		back, e = pk.unmarshal(up, data)
+		back, e = pk.unmarshal(up, buf)
 		return e
 	})
+	if !pan {
+		ab := back
+		if single && err != nil {
+			ab = nil
+		}
+		aliasCheck(s, pk, ".UnmarshalBinary", up, data, buf, ab)
+	}
 	o := cq.Err
 	if pan {
 		o = cq.Panic
@@ -131,7 +210,7 @@ func decodeCase(s *cases.Set, pk *pkg, up, single bool, data []byte, kind string
 
 func keyOutcome(f func() (lorawan.AES128Key, error)) string {
 	var k lorawan.AES128Key
-	err, pan, _ := call(func() error { var e error; k, e = f(); return e })
+	err, pan, _ := call("multicastsetup key derivation", func() error { var e error; k, e = f(); return e })
 	if pan {
 		return cq.Panic
 	}
@@ -191,6 +270,7 @@ func main() {
 	s := cases.New("C18", dir, "LW.Corr.C18",
 		"all in-range values of every single-byte payload and all 256 bytes into its decoder; per payload type boundary, random in-range and out-of-range values; well-formed and ill-formed command sequences of 1..6 commands in both directions; truncated and random byte strings into Commands/Command decoders; random keys and addresses through the five key derivations; every case is non-trivial (distinct = distinct printed case)")
 	s.ShardSize = 400
+	s.Watchdog(3 * time.Second)
 	pkgs := []*pkg{csPkg(), mcPkg(), frPkg(), fwPkg()}
 	mcp, fwp := pkgs[1], pkgs[3]
 	mult := 1
@@ -347,7 +427,7 @@ func main() {
 			for i := 0; i < 12*mult; i++ {
 				cs := wfStream(r, pk, up, 1+r.Intn(3), inRange)
 				var enc []byte
-				err, pan, _ := call(func() error { var e error; enc, e = pk.marshal(cs); return e })
+				err, pan, _ := call("Commands.MarshalBinary", func() error { var e error; enc, e = pk.marshal(cs); return e })
 				if err != nil || pan {
 					continue
 				}
